@@ -605,8 +605,15 @@ func ruleCyclicPred(rule string, fns []string, min int, why string) func(*Ctx) {
 	return func(c *Ctx) {
 		n := 0
 		for _, fn := range fns {
-			f := c.fn(fn)
-			for _, b := range f.Blocks {
+			f0 := c.fn(fn)
+			// the predecessor lookup may sit in a closure of the function (prevOf := func(k int) Point64 {...})
+			var allBlocks []*ssa.BasicBlock
+			allBlocks = append(allBlocks, f0.Blocks...)
+			for _, af := range f0.AnonFuncs {
+				allBlocks = append(allBlocks, af.Blocks...)
+			}
+			f := f0
+			for _, b := range allBlocks {
 				ifi, ok := b.Instrs[len(b.Instrs)-1].(*ssa.If)
 				if !ok {
 					continue
@@ -644,13 +651,13 @@ func ruleCyclicPred(rule string, fns []string, min int, why string) func(*Ctx) {
 				seen := 0
 				for _, in := range zero.Instrs {
 					ia, ok := in.(*ssa.IndexAddr)
-					if !ok || !sameSlice(ia.X, X) {
+					if !ok || !(sameSlice(ia.X, X) || closureResolve(ia.X) == closureResolve(X)) {
 						continue
 					}
 					seen++
 					switch {
 					case isConstInt(ia.Index, 0), sameIntValue(ia.Index, i):
-					case isLenMinus1(ia.Index, X):
+					case isLenMinus1(ia.Index, X), lenMinus1Through(ia.Index, ia.X):
 					default:
 						bad = fmt.Sprintf("for index 0 the predecessor is read at %s[%s], which is not the last element", valueName(X), valueName(ia.Index))
 					}
@@ -659,6 +666,20 @@ func ruleCyclicPred(rule string, fns []string, min int, why string) func(*Ctx) {
 					continue
 				}
 				n++
+				// a lookup that lives in a closure stands for every place that calls it
+				if g := b.Parent(); g.Parent() != nil {
+					uses := 0
+					for _, pb := range g.Parent().Blocks {
+						for _, pin := range pb.Instrs {
+							if ci, ok := pin.(ssa.CallInstruction); ok && ci.Common().StaticCallee() == g {
+								uses++
+							}
+						}
+					}
+					if uses > 1 {
+						n += uses - 1
+					}
+				}
 				c.check(bad == "", rule, fmt.Sprintf("%s:%s:wrap#%d", rule, fn, n), ifi.Cond.Pos(), fn,
 					fmt.Sprintf("%s[i-1] for i > 0, %s[len-1] for i == 0", valueName(X), valueName(X)), bad, why)
 			}
@@ -2917,4 +2938,79 @@ func ruleBackwardScanReachesZero(rule string) func(*Ctx) {
 		}
 		c.floor(rule, n, 1)
 	}
+}
+
+// closureResolve: a load of a captured variable inside a closure (or of its heap cell in the parent) that is
+// assigned exactly once stands for the value assigned: `polygon` and `n := len(polygon)` read inside
+// `prevOf := func(k int) Point64 {...}` are the parent's parameter and its length.
+func closureResolve(v ssa.Value) ssa.Value {
+	for k := 0; k < 4; k++ {
+		u, ok := v.(*ssa.UnOp)
+		if !ok || u.Op != token.MUL {
+			break
+		}
+		switch a := u.X.(type) {
+		case *ssa.FreeVar:
+			g := a.Parent()
+			parent := g.Parent()
+			if parent == nil {
+				return v
+			}
+			idx := -1
+			for i, fv := range g.FreeVars {
+				if fv == a {
+					idx = i
+				}
+			}
+			var cell *ssa.Alloc
+			for _, b := range parent.Blocks {
+				for _, in := range b.Instrs {
+					if mc, ok := in.(*ssa.MakeClosure); ok && mc.Fn == ssa.Value(g) && idx >= 0 && idx < len(mc.Bindings) {
+						cell, _ = mc.Bindings[idx].(*ssa.Alloc)
+					}
+				}
+			}
+			if cell == nil || cell.Referrers() == nil {
+				return v
+			}
+			var st *ssa.Store
+			n := 0
+			for _, r := range *cell.Referrers() {
+				if s, ok := r.(*ssa.Store); ok && s.Addr == ssa.Value(cell) {
+					st = s
+					n++
+				}
+			}
+			if n != 1 {
+				return v
+			}
+			v = st.Val
+			continue
+		case *ssa.Alloc:
+			if w := onceCell(v); w != nil {
+				v = w
+				continue
+			}
+		}
+		break
+	}
+	return v
+}
+
+// lenMinus1Through: idx is len(X)-1 once captured variables are read through their cells.
+func lenMinus1Through(idx, X ssa.Value) bool {
+	bo, ok := idx.(*ssa.BinOp)
+	if !ok || bo.Op != token.SUB || !isConstInt(bo.Y, 1) {
+		return false
+	}
+	call, ok := closureResolve(bo.X).(*ssa.Call)
+	if !ok {
+		return false
+	}
+	bi, ok := call.Call.Value.(*ssa.Builtin)
+	if !ok || bi.Name() != "len" || len(call.Call.Args) != 1 {
+		return false
+	}
+	a, b := closureResolve(call.Call.Args[0]), closureResolve(X)
+	return a == b || (paramOf(a) != nil && paramOf(a) == paramOf(b))
 }
